@@ -15,9 +15,10 @@ Valid     == {1, 2, 3, 4}
 Coercible == {11, 12, 13}      \* 11 |-> 1 ... : e.g. "1" under an int-casting validator
 Invalid   == {99}
 AnyItem   == Valid \cup Coercible \cup Invalid
-VModes    == {"id", "coerce"}
+VModes    == {"id", "coerce", "strict"}
 
-Accepts(vm, x) == vm = "id" \/ x \in Valid \cup Coercible
+\* "id": no validation; "coerce": casts Coercible items; "strict": only Valid items
+Accepts(vm, x) == vm = "id" \/ x \in Valid \/ (vm = "coerce" /\ x \in Coercible)
 V(vm, x)       == IF vm = "coerce" /\ x \in Coercible THEN x - 10 ELSE x
 AllOK(vm, xs)  == \A i \in 1..Len(xs) : Accepts(vm, xs[i])
 VSeq(vm, xs)   == [i \in 1..Len(xs) |-> V(vm, xs[i])]
